@@ -338,6 +338,11 @@ class RandInfoBuilder(ModelVisitor,RandIF):
         for f in e.arr.field_l:
             self.process_fieldref(f)
 
+    def visit_expr_array_product(self, e):
+        # The product, like the sum, relates all array elements
+        for f in e.arr.field_l:
+            self.process_fieldref(f)
+
     def visit_expr_fieldref(self, e):
         # If the field is already referenced by an existing randset
         # that is not this one, we need to merge the sets
